@@ -773,6 +773,13 @@ class GridDevice(cirq.Device):
             if operation not in gateset:
                 raise ValueError(f'Operation {operation} contains a gate which is not supported.')
 
+            if isinstance(operation.untagged, cirq.CircuitOperation):
+                # The gateset looked inside the sub-circuit; qubits and pairs are checked there too.
+                self._validate_operations(
+                    operation.untagged.mapped_circuit(deep=True).all_operations()
+                )
+                continue
+
             for q in op_qubits:
                 if q not in qubits:
                     if isinstance(q, ops.Coupler):
